@@ -33,13 +33,13 @@ CLAIMED = {
          'Theorems C10_* (coq/props/C10.v): dense form exact when no pair repeats (duplicates would be summed - shown), shape, the default engine\'s matrix entry formula, every invalid class rejected by the check model; source ties coq/props/C10g.v (validator as written = decision table) and coq/props/C10h.v (the matrix construction of _make_output as written, made dense, = the model matrix: C10_source_matrix).',
          COMMON_NOTE + 'scipy coo_matrix.toarray sums duplicates; container independence is definitional in the model and carried by correspondence (lists, tuples, arrays, Series with 4 index kinds).', 'DESIGN.md section 4 C10'),
  'C11': ('Coq proof: any chunk size >= 1 and any completion order of a modelled Pool.map give the serial result; chunk-size expression regenerated from nn.py proved >= 1; compression independence from the pre-filter theorem; top-m contract of stable sort + firstn; differential runs with real Pool workers',
-         'Theorems C11_* (coq/props/C11.v). any chunk size >= 1 and any completion order give the serial result, the regenerated chunk-size expression is >= 1, compression independence from the pre-filter theorem, top-m contract, and the regenerated float64 radius admits every on-radius pair (C04_radius re-checked here). The scheduler part is partial: the theorem covers every schedule of the modelled pool; that CPython Pool.map meets the contract and fork inheritance are runtime behaviour exercised (not proved) with real processes.',
+         'Theorems C11_* (coq/props/C11.v). any chunk size >= 1 and any completion order give the serial result, the regenerated chunk-size expression is >= 1, compression independence from the pre-filter theorem, top-m contract, and the regenerated float64 radius admits every on-radius pair (C04_radius re-checked here); the custom-distance worker _cal_custom_dist regenerated from nn.py returns exactly the candidates inside both radii, ascending, and with max_returns the first m of them (coq/props/C11h.v, for any total preorder on distances). The scheduler part is partial: the theorem covers every schedule of the modelled pool; that CPython Pool.map meets the contract and fork inheritance are runtime behaviour exercised (not proved) with real processes.',
          COMMON_NOTE + 'multiprocessing.Pool.map ordered-result contract, fork start method, rapidfuzz extract ordering.', 'DESIGN.md section 4 C11'),
  'C12': ('Coq proof that the one-edit generators (with their duplicate-suppression rules) yield exactly the distance-1 strings, each once; BFS closure / next-nearest / set utilities characterised; list-level differential runs (order and duplicates visible)',
          'Theorems C12_* (coq/props/C12.v): levenshtein_neighbors model exact and NoDup for any duplicate-free alphabet, hamming_neighbors for any position list, next_nearest = strings within 1..m steps, find_pairs lists each unordered pair once, neighbor numbers, isdist1; the enumeration loops of _isdist2_hamming / _isdist3_hamming and the cascade of nndist_hamming are modelled and proved equal to the capped minimum (C12_nndist); the source text of levenshtein_neighbors, hamming_neighbors, _isdist2_hamming, _isdist3_hamming is regenerated into Gallina on every run and proved equal, as lists, to the models (C12_source_*, coq/props/C12g.v); isdist1, calculate_neighbor_numbers and the nndist_hamming cascade as written (coq/props/C12h.v); next_nearest_neighbors, find_neighbor_pairs and find_neighbor_pairs_index as written, for every set iteration order (coq/props/C12i.v).',
          COMMON_NOTE + 'Python generator/set semantics; nndist_hamming for references over the amino-acid letters (its documented alphabet).', 'DESIGN.md section 4 C12'),
  'C14': ('Coq proof: every engine model with a custom distance keeps a pair iff lev <= k and custom <= max (generic in the distance), TCRdist glue exact for any tables / CDR3 distance, bundled V tables symmetric with zero diagonal by vm_compute on literals regenerated from the CSVs; differential runs with six custom distances and a vendored pwseqdist stand-in',
-         'Theorems C14_* (coq/props/C14.v). Partial for TCRdist: real pwseqdist is absent; what is decided is the glue around it (candidate search, table lookup by row allele, chain sums, threshold, empty result); that glue is also regenerated from nn.py on every run and proved against the model (coq/props/C14h.v: the trimming slice for every ntrim / ctrim, the flat table index, the sum and threshold, the default parameters).',
+         'Theorems C14_* (coq/props/C14.v). Partial for TCRdist: real pwseqdist is absent; what is decided is the glue around it (candidate search, table lookup by row allele, chain sums, threshold, empty result); that glue is also regenerated from nn.py on every run and proved against the model (coq/props/C14h.v: the trimming slice for every ntrim / ctrim, the flat table index, the sum and threshold, the default parameters); the kdtree worker for custom distances as written keeps exactly the candidates inside both radii (coq/props/C11h.v).',
          COMMON_NOTE + 'custom distances symmetric with d(x,x)=0 (stated domain); pandas read_csv/get_indexer; the stand-in CDR3 distance.', 'DESIGN.md section 4 C14'),
  'C16': ('Coq proof: regenerated Chao kernels = closed forms (field/lra over Q), set algebra by NoDup counting, the three overlap measures regenerated from stats.py proved equal to the set measures; differential run of extracted model vs implementation',
          'Theorems C16_* in coq/props/C16.v: the functions generated from stats.py on this run equal the closed forms for every count vector of length >= 1 (no exception path), a defined estimate is >= S_obs for integer counts, and the overlap measures are the stated set cardinalities, symmetric and invariant under order/duplicates.',
